@@ -354,6 +354,13 @@ func c15SchemaFor(item any) (c c15Call) {
 	return c
 }
 
+func structOf(t reflect.Type) reflect.Type {
+	for t != nil && t.Kind() == reflect.Pointer {
+		t = t.Elem()
+	}
+	return t
+}
+
 func (c c15Call) class() string {
 	switch {
 	case c.panic != "":
@@ -405,6 +412,25 @@ func (st *c15State) subject(src, name string, item any) {
 			r.Fail(-1, "determinism", fmt.Sprintf("call %d returned a different result than the first call", i+1), desc)
 			break
 		}
+	}
+
+	// ... and independent of what an earlier caller did with its result: the top-level
+	// record of an unregistered struct type is built afresh by every call, so scribbling
+	// over one result (its name and the names in its field list) must not show up in the next
+	if _, isReg := c15Registered(structOf(rt)); first.class() == "ok" && !isReg && first.s.Type == "record" && first.s.Object != nil {
+		snapshot := schemaJSON(first.s)
+		scratch := c15SchemaFor(item)
+		if scratch.class() == "ok" && scratch.s.Object != nil {
+			scratch.s.Object.Name = "scribbled-by-an-earlier-caller"
+			for i := range scratch.s.Object.Fields {
+				scratch.s.Object.Fields[i].Name = fmt.Sprintf("scribbled%d", i)
+			}
+		}
+		again := c15SchemaFor(item)
+		if again.class() != "ok" || schemaJSON(again.s) != snapshot {
+			r.Fail(-1, "determinism:shared-result", "a caller that edits the schema it received changes what the next caller gets for the same type", desc)
+		}
+		first = again
 	}
 
 	impl := "None"
@@ -1486,6 +1512,18 @@ func runC20(r *Run) {
 		{Op: "run", Containers: late, Seed: seed, N: nv, Reuse: true},
 		{Op: "run", Containers: late, Seed: seed, N: nv},
 	}, false)
+	// a schema registered (or replaced) after a schema was already generated for a
+	// containing type: generation is a function of the type and the registrations
+	// in force when it is called, not of earlier calls
+	p.scenario("late-schema-registration", []c20Step{
+		{Op: "run", Containers: c20AllContainers, Seed: seed, N: nv},
+		{Op: "regschema", Type: "Cents"}, {Op: "regschema", Type: "IDs", Variant: "alt"},
+		{Op: "run", Containers: c20AllContainers, Seed: seed, N: nv},
+		{Op: "regschema", Type: "Cents", Variant: "alt"}, {Op: "regschema", Type: "Pair", Variant: "alt"}, {Op: "regschema", Type: "Tag"},
+		{Op: "run", Containers: c20AllContainers, Seed: seed, N: nv},
+		{Op: "reg", Type: "Cents", K: k1}, {Op: "regschema", Type: "Cents"},
+		{Op: "run", Containers: c20AllContainers, Seed: seed, N: nv},
+	}, false)
 	// registration only after a first codec was built without any
 	p.scenario("first-after-build", []c20Step{
 		{Op: "run", Containers: late, Seed: seed, N: nv, Hold: true},
@@ -1564,6 +1602,15 @@ func runC20(r *Run) {
 				}
 				hold := r.Rng.Intn(2) == 0
 				steps = append(steps, c20Step{Op: "run", Containers: cs, Seed: seed, N: nv, Hold: hold})
+				if r.Rng.Intn(2) == 0 { // a schema (re-)registered between two generations for the same containers
+					tn3 := c20TypeNames[r.Rng.Intn(len(c20TypeNames))]
+					v := ""
+					if r.Rng.Intn(2) == 0 {
+						v = "alt"
+					}
+					steps = append(steps, c20Step{Op: "regschema", Type: tn3, Variant: v},
+						c20Step{Op: "run", Containers: cs, Seed: seed, N: nv})
+				}
 				if hold && r.Rng.Intn(2) == 0 {
 					tn2 := c20TypeNames[r.Rng.Intn(len(c20TypeNames))]
 					steps = append(steps, c20Step{Op: "reg", Type: tn2, K: c20Ks[r.Rng.Intn(len(c20Ks))]},
